@@ -47,7 +47,7 @@ Toks(text) == Lex(text)[1].toks
 S(text) == LitSummary(Toks(text))
 OneFixed(text, inst) == LET s == S(text) IN ~s.silent /\ s.ninvalid = 0 /\ {r.inst : r \in s.valid} = {inst}
                                              /\ \A r \in s.valid : r.c = "fixed" /\ ~r.soft /\ r.win = 0
-Refused(text) == LET s == S(text) IN ~s.silent /\ s.valid = {}
+Refused(text) == LET s == S(text) IN ~s.silent /\ s.valid = {} /\ s.partial = {}
 \* "#2000-02-29T23:59:59.5 -04:00#"
 L1 == <<35,50,48,48,48,45,48,50,45,50,57,84,50,51,58,53,57,58,53,57,46,53,32,45,48,52,58,48,48,35>>
 \* "#Feb 29, 2000 11:59:59.5 pm -0400#"
@@ -68,6 +68,53 @@ L10 == <<35,50,48,48,48,45,48,49,45,48,49,32,48,48,58,48,48,32,43,50,52,58,48,48
 L11 == <<35,49,48,58,51,48,35>>
 L12 == <<35,106,97,110,32,49,44,32,49,32,98,99,35>>
 L13 == <<35,50,48,48,48,32,106,97,110,32,49,32,49,50,58,48,48,32,97,109,35>>
+\* ISO week dates known from outside: 2020-01-27 is the Monday of 2020-W05, 2021-01-03 the Sunday of 2020-W53,
+\* 2018-12-31 the Monday of 2019-W01, 2016-01-03 lies in 2015-W53, 2000-01-01 in 1999-W52, 0001-01-01 in 0001-W01
+IsoWeeks == /\ IsoYearOf(DaysFromCivil(2020, 1, 27)) = 2020 /\ IsoWeekOf(DaysFromCivil(2020, 1, 27)) = 5
+            /\ IsoYearOf(DaysFromCivil(2021, 1, 3)) = 2020 /\ IsoWeekOf(DaysFromCivil(2021, 1, 3)) = 53
+            /\ IsoYearOf(DaysFromCivil(2018, 12, 31)) = 2019 /\ IsoWeekOf(DaysFromCivil(2018, 12, 31)) = 1
+            /\ IsoYearOf(DaysFromCivil(2016, 1, 3)) = 2015 /\ IsoWeekOf(DaysFromCivil(2016, 1, 3)) = 53
+            /\ IsoYearOf(DaysFromCivil(2000, 1, 1)) = 1999 /\ IsoWeekOf(DaysFromCivil(2000, 1, 1)) = 52
+            /\ IsoYearOf(0) = 1 /\ IsoWeekOf(0) = 1 /\ IsoWeekOf(6) = 1 /\ IsoWeekOf(7) = 2
+            /\ \A y \in Years : IsoWeekOf(DaysFromCivil(y, 1, 4)) = 1 /\ IsoYearOf(DaysFromCivil(y, 1, 4)) = y
+                                /\ IsoWeekOf(DaysFromCivil(y, 12, 28)) \in {52, 53} /\ IsoYearOf(DaysFromCivil(y, 12, 28)) = y
+
+\* partial readings: the written fields, and which replies fit them
+OnePartial(text) == LET s == S(text) IN ~s.silent /\ s.valid = {} /\ s.ninvalid = 0 /\ Cardinality(s.partial) = 1
+PCof(text) == CHOOSE pc \in S(text).partial : TRUE
+\* "#2020-W05 10:00#"  "#--03-15 10:30 +05:30#"  "#jan 5#"  "#10:30 -04:00#"  "#--02-30 10:00#"
+P1 == <<35,50,48,50,48,45,87,48,53,32,49,48,58,48,48,35>>
+P2 == <<35,45,45,48,51,45,49,53,32,49,48,58,51,48,32,43,48,53,58,51,48,35>>
+P3 == <<35,106,97,110,32,53,35>>
+P4 == <<35,49,48,58,51,48,32,45,48,52,58,48,48,35>>
+P5 == <<35,45,45,48,50,45,51,48,32,49,48,58,48,48,35>>
+\* "#2020-01-01 10:00 +0199#"  "#2016-12-31 23:59:60#"  "#2016-12-31 23:59:60.5 -04:00#"
+P6 == <<35,50,48,50,48,45,48,49,45,48,49,32,49,48,58,48,48,32,43,48,49,57,57,35>>
+P7 == <<35,50,48,49,54,45,49,50,45,51,49,32,50,51,58,53,57,58,54,48,35>>
+P8 == <<35,50,48,49,54,45,49,50,45,51,49,32,50,51,58,53,57,58,54,48,46,53,32,45,48,52,58,48,48,35>>
+UnixDays == ZFromInt(719162)
+Partials ==
+  /\ OnePartial(P1) /\ PCof(P1).wk = 5 /\ PCof(P1).hy /\ PCof(P1).y = 2020 /\ PCof(P1).secs = 36000 /\ ~PCof(P1).nodate
+  /\ PCFits(PCof(P1), <<2020, 1, 27, 10, 0, 0, 0>>, 0) /\ PCFits(PCof(P1), <<2020, 2, 2, 10, 0, 0, 0>>, 0)
+  /\ PCFits(PCof(P1), <<2020, 1, 27, 12, 0, 0, 0>>, 7200)            \* the same instant shown at +02:00
+  /\ ~PCFits(PCof(P1), <<2020, 2, 3, 10, 0, 0, 0>>, 0) /\ ~PCFits(PCof(P1), <<2016, 8, 2, 10, 0, 0, 0>>, 0)
+  /\ ~PCFits(PCof(P1), <<2021, 2, 1, 10, 0, 0, 0>>, 0) /\ ~PCFits(PCof(P1), <<2020, 1, 27, 10, 0, 1, 0>>, 0)
+  /\ OnePartial(P2) /\ PCof(P2).mo = 3 /\ PCof(P2).dd = 15 /\ ~PCof(P2).hy /\ PCof(P2).ok = 1 /\ PCof(P2).off = 19800
+  /\ PCFits(PCof(P2), <<2016, 3, 15, 10, 30, 0, 0>>, 19800) /\ PCFits(PCof(P2), <<1999, 3, 15, 5, 0, 0, 0>>, 0)
+  /\ ~PCFits(PCof(P2), <<2016, 8, 2, 10, 30, 0, 0>>, 19800) /\ ~PCFits(PCof(P2), <<2016, 3, 15, 10, 30, 0, 0>>, 0)
+  /\ OnePartial(P3) /\ PCof(P3).mo = 1 /\ PCof(P3).dd = 5 /\ PCof(P3).secs = 0
+  /\ PCFits(PCof(P3), <<2026, 1, 5, 0, 0, 0, 0>>, 0) /\ ~PCFits(PCof(P3), <<2026, 1, 5, 0, 0, 0, 1>>, 0)
+  /\ OnePartial(P4) /\ PCof(P4).nodate /\ PCof(P4).secs = 37800 /\ PCof(P4).off = -14400
+  /\ ZEq(TodayInstant(PCof(P4), <<2016, 8, 2, 19, 33, 19>>), CivilInstant(2016, 8, 2, 10, 30, 0, 0, -14400))
+  /\ ZEq(TodayInstant(PCof(P4), <<2016, 8, 3, 3, 59, 59>>), CivilInstant(2016, 8, 2, 10, 30, 0, 0, -14400))
+  /\ ZEq(TodayInstant(PCof(P4), <<2016, 8, 3, 4, 0, 0>>), CivilInstant(2016, 8, 3, 10, 30, 0, 0, -14400))
+  /\ ZEq(ClockInstant(<<1970, 1, 1, 0, 0, 1>>), ZAdd(ZMul(UnixDays, ZMul(ZFromInt(86400), ZBillion)), ZBillion))
+  /\ OnePartial(P5) /\ \A y \in Years : ~PCFits(PCof(P5), <<y, 3, 1, 10, 0, 0, 0>>, 0)
+  /\ Refused(P6)
+  /\ (LET s7 == S(P7) IN ~s7.silent /\ s7.partial = {} /\ {r.inst : r \in s7.valid} = {CivilInstant(2017, 1, 1, 0, 0, 0, 0, 0)}
+                         /\ \A r \in s7.valid : r.soft /\ r.leap /\ r.c = "fixed")
+  /\ (LET s8 == S(P8) IN {r.inst : r \in s8.valid} = {CivilInstant(2017, 1, 1, 4, 0, 0, 500000000, 0)} /\ \A r \in s8.valid : r.soft)
+
 Literals == /\ OneFixed(L1, CivilInstant(2000, 2, 29, 23, 59, 59, 500000000, -14400))
             /\ OneFixed(L2, CivilInstant(2000, 2, 29, 23, 59, 59, 500000000, -14400))
             /\ OneFixed(L3, CivilInstant(2000, 2, 29, 23, 59, 59, 500000000, 0))
@@ -75,11 +122,12 @@ Literals == /\ OneFixed(L1, CivilInstant(2000, 2, 29, 23, 59, 59, 500000000, -14
             /\ OneFixed(L5, CivilInstant(2000, 2, 29, 23, 59, 0, 0, 0))
             /\ Refused(L6) /\ Refused(L7) /\ Refused(L9) /\ Refused(L10)
             /\ (LET s8 == S(L8) IN ~s8.silent /\ s8.valid # {} /\ \A r \in s8.valid : r.soft)
-            /\ S(L11).silent
+            /\ OnePartial(L11) /\ PCof(L11).nodate
             /\ OneFixed(L12, CivilInstant(0, 1, 1, 0, 0, 0, 0, 0))
             /\ OneFixed(L13, CivilInstant(2000, 1, 1, 0, 0, 0, 0, 0))
 
 ASSUME PrintT(<<"DATETIME_SELFTEST", Successor, Period, LeapRule, Anchors, Instants, Literals>>)
+ASSUME PrintT(<<"DATETIME_SELFTEST2", IsoWeeks, Partials>>)
 
 VARIABLE x
 Init == x = 0
